@@ -727,6 +727,8 @@ pub fn cmd_record_mt(args: &HashMap<String, String>) -> i32 {
     let ncommitters: usize = args.get("committers").map(|s| s.parse().unwrap()).unwrap_or(2);
     let nreaders: usize = args.get("readers").map(|s| s.parse().unwrap()).unwrap_or(3);
     let max_reads: usize = args.get("reads").map(|s| s.parse().unwrap()).unwrap_or(600);
+    // --spin: readers never pause (a lookup of several dependent steps is in progress at almost every instant)
+    let spin = args.contains_key("spin");
     let u = Arc::new(Universe::new(cols, nkeys, 1, seed, !args.contains_key("large")));
     let root = scratch_root();
     let dir: PathBuf = fresh_dir(&root, "mt");
@@ -790,7 +792,7 @@ pub fn cmd_record_mt(args: &HashMap<String, String>) -> i32 {
             let mut n = 0usize;
             while !stop.load(Ordering::SeqCst) && n < max_reads {
                 n += 1;
-                if !hot.load(Ordering::SeqCst) {
+                if !spin && !hot.load(Ordering::SeqCst) {
                     std::thread::sleep(std::time::Duration::from_micros(120));
                 }
                 let c = rng.gen::<usize>() % u.cols.len();
